@@ -125,6 +125,11 @@ func (colorizeToolS) echoResetColor(out io.Writer) { //nolint:unused //no
 //
 
 func (colorizeToolS) translate(str string, initialColor ...color.Color) string {
+	if !strings.ContainsAny(str, "<&") {
+		// no markup: nothing to translate. (The translator runs an HTML
+		// parser, which also drops leading blanks, NUL bytes and CRs.)
+		return str
+	}
 	clr := color.FgDefault
 	for _, c := range initialColor {
 		clr = c
